@@ -83,8 +83,8 @@ Definition with_suffix (n suf : str) : str := stem n ++ suf.
 
 Definition idx : str := s "index.md".
 Definition is_md (n : str) : bool := str_eqb (suffix n) (s ".md").
-(* PageNode: filename = Path(path.stem); path = location / filename.with_suffix(".html") *)
-Definition out_name (file : str) : str := with_suffix (stem file) (s ".html").
+(* PageNode: filename = Path(path.stem); path = location / f"{filename}.html" *)
+Definition out_name (file : str) : str := stem file ++ s ".html".
 (* PagetreePage.writeout: self.obj.filename.stem == "index" *)
 Definition is_index_file (file : str) : bool := str_eqb (stem (stem file)) (s "index").
 
@@ -145,7 +145,7 @@ Definition visit_name (proj : list str) (pcopy : option (list str)) (loc : list 
     else match find_entry name es with
          | None => VErr                           (* "Requested page file ... does not exist" *)
          | Some (Dir _ _) =>
-           if in_opt name pcopy then VSkip        (* parent and name in parent.copy_subdir *)
+           if in_opt name pcopy then VSkip        (* name in node.copy_subdir; see [gpt] *)
            else match assoc_get name sub with
                 | Some (RNode n) => VSub n
                 | Some RErr => VErr
@@ -171,7 +171,8 @@ Definition merged (ordered : list str) (lst : list str) : list str :=
   match ordered with [] => lst | _ => dedup (ordered ++ lst) end.
 
 (* get_page_tree(topdir = the directory [e] at [loc], parent = a node whose copy_subdir is
-   [pcopy], or None).  [proj] is the project-level copy_subdir list. *)
+   [pcopy], or None; the parent is only recorded in the node, it has no influence on the
+   result).  [proj] is the project-level copy_subdir list. *)
 Fixpoint gpt (proj : list str) (pcopy : option (list str)) (loc : list str) (e : entry)
   {struct e} : res :=
   match e with
@@ -182,7 +183,8 @@ Fixpoint gpt (proj : list str) (pcopy : option (list str)) (loc : list str) (e :
       let ordered := ordered_of ord in
       let copy := eff_copy proj cp in
       let sub := map (fun x => (ename x, gpt proj (Some copy) (loc ++ [ename x]) x)) es in
-      let vs := map (visit_name proj pcopy loc es sub) (merged ordered (listing es)) in
+      (* the list consulted for skipping a sub-directory is the one of this directory's own node *)
+      let vs := map (visit_name proj (Some copy) loc es sub) (merged ordered (listing es)) in
       if v_err vs then RErr
       else RNode (Node dname idx loc ordered copy (v_files vs) (v_subs vs))
     | _ => RNone                                  (* no index.md / it has no title *)
@@ -292,7 +294,10 @@ Fixpoint file_at (p : list str) (l : list (list str * origin)) : option origin :
    A directory that is named by the copy_subdir of its own directory's index.md *and* has an
    index.md of its own can be read both ways in the user guide (still a sub-tree of pages, or
    only copied); [skip] decides, per directory (given by its path), which reading applies.  It
-   is consulted for such directories only. *)
+   is consulted for such directories only.  The repaired code implements "only copied"
+   (skip = fun _ => true): such a directory is "copied along without containing an index.md
+   itself", as the comment in PageNode puts it. *)
+Definition only_copied : list str -> bool := fun _ => true.
 
 Fixpoint ends_with (suf x : str) : bool :=
   if str_eqb suf x then true
@@ -342,16 +347,19 @@ Definition plain_file (e : entry) : bool :=
   | File n _ _ _ => visible n && negb (ends_with (s ".md") n && (3 <? length n))
   | Dir _ _ => false
   end.
-Fixpoint spec_copied (loc : list str) (e : entry) {struct e} : list (list str) :=
+Fixpoint spec_copied (proj : list str) (loc : list str) (e : entry) {struct e}
+  : list (list str) :=
   match e with
   | File _ _ _ _ => []
   | Dir d es =>
     match titled_index es with
     | None => []
-    | Some _ =>
+    | Some (_, cp) =>
       map (fun x => loc ++ [ename x]) (filter plain_file es)
         ++ flat_map (fun x => match x with
-                              | Dir n _ => if visible n then spec_copied (loc ++ [n]) x else []
+                              | Dir n _ =>
+                                if visible n && negb (str_in n (eff_copy proj cp))
+                                then spec_copied proj (loc ++ [n]) x else []
                               | File _ _ _ _ => []
                               end) es
     end
@@ -394,8 +402,9 @@ Fixpoint spec_copydirs (proj : list str) (loc : list str) (e : entry) {struct e}
                               | _ => []
                               end) es
         ++ flat_map (fun x => match x with
-                              | Dir n _ => if visible n then spec_copydirs proj (loc ++ [n]) x
-                                           else []
+                              | Dir n _ =>
+                                if visible n && negb (str_in n (eff_copy proj cp))
+                                then spec_copydirs proj (loc ++ [n]) x else []
                               | File _ _ _ _ => []
                               end) es
     end
@@ -419,55 +428,6 @@ Fixpoint may_fail (e : entry) : bool :=
   end.
 
 (* ------------------------------------------------------------------------------------------ *)
-(* Regions *)
-(* the theorems' region: no directory with an index.md of its own is named by the copy_subdir
-   list of its directory's index.md (two readings of the user guide) or of the index.md one
-   level further up (there the code skips it by mistake) *)
-Fixpoint regular (proj : list str) (pcopy : option (list str)) (e : entry) {struct e} : bool :=
-  match e with
-  | File _ _ _ _ => true
-  | Dir _ es =>
-    match titled_index es with
-    | None => true
-    | Some (_, cp) =>
-      forallb (fun x => match x with
-                        | Dir n _ =>
-                          (negb (has_titled_index x)
-                           || (negb (in_opt n pcopy) && negb (str_in n (eff_copy proj cp))))
-                          && regular proj (Some (eff_copy proj cp)) x
-                        | File _ _ _ _ => true
-                        end) es
-    end
-  end.
-
-(* known region 1: a reachable sub-directory with pages is skipped because the index.md of its
-   *grandparent* names it in copy_subdir, although its own parent's index.md does not *)
-Fixpoint gp_lost (proj : list str) (pcopy : option (list str)) (e : entry) {struct e} : bool :=
-  match e with
-  | File _ _ _ _ => false
-  | Dir _ es =>
-    match titled_index es with
-    | None => false
-    | Some (_, cp) =>
-      existsb (fun x => match x with
-                        | Dir n _ =>
-                          visible n &&
-                          (if in_opt n pcopy
-                           then negb (str_in n (eff_copy proj cp)) && has_titled_index x
-                           else gp_lost proj (Some (eff_copy proj cp)) x)
-                        | File _ _ _ _ => false
-                        end) es
-    end
-  end.
-
-(* known region 2: a Markdown file whose name has a further dot ("v1.2.md"): the page is written
-   to "v1.html" *)
-Fixpoint plain_names (e : entry) : bool :=
-  match e with
-  | File n _ _ _ => negb (md_name n) || str_eqb (out_name n) (html_name n)
-  | Dir _ es => forallb plain_names es
-  end.
-
 (* names of a directory: what a file system guarantees *)
 Definition good_name (n : str) : bool :=
   match n with [] => false | _ => negb (existsb (fun c => ch_eqb c "/"%char) n) end.
@@ -480,13 +440,13 @@ Fixpoint wf_tree (e : entry) : bool :=
   end.
 
 (* does the entry named [n] of the directory [es] at [loc] become a sub-page (a page of its own
-   or a sub-tree)?  [pcopy]: copy_subdir of the parent node, [copy]: of this directory's node *)
-Definition yields_page (proj : list str) (pcopy : option (list str)) (loc : list str)
+   or a sub-tree)?  [copy]: the copy_subdir list of this directory's node *)
+Definition yields_page (proj : list str) (loc : list str)
            (es : list entry) (copy : list str) (n : str) : bool :=
   visible n &&
   match find_entry n es with
   | Some (Dir _ _ as x) =>
-    negb (in_opt n pcopy) &&
+    negb (str_in n copy) &&
     match gpt proj (Some copy) (loc ++ [n]) x with RNode _ => true | _ => false end
   | Some (File _ titled _ _) => is_md n && titled
   | None => false
